@@ -156,7 +156,11 @@ def macro_cases(seed, n, gates):
                 elif t < 8:
                     toks.append(r.choice(["x", "_", "9"]) + r.choice(names))
                 elif t < 10:
-                    toks.append('"%s %s\\" %s"' % (r.choice(names), r.choice(["", "\\\\", "é", "{x}"]), r.choice(names)))
+                    if r.chance(35):
+                        # a literal that ENDS in an escaped backslash: the quote after it closes the literal
+                        toks.append('"%s%s\\\\"' % (r.choice(names + ["", "C:"]), r.choice(["", " ", "\\\\"])))
+                    else:
+                        toks.append('"%s %s\\" %s"' % (r.choice(names), r.choice(["", "\\\\", "é", "{x}"]), r.choice(names)))
                 elif t < 13:
                     toks.append(r.choice(["+", "-", "(", ")", ";", "=", "[", "]", ",", ".", "->", "é", "日本"]))
                 elif t < 14:
